@@ -352,3 +352,1001 @@ def translate(repo: Path) -> dict:
              ", ".join(f"({_s(c)}, {_s(n)}, {k})" for c, n, k in setters) + "]")
     L += ["", "end Dulwich.OGen", ""]
     return {"Objects": "\n".join(L)}
+
+
+# ================================================================================================
+# small helpers shared by harness and workers
+
+def _errname(e: BaseException) -> str:
+    """Exception class -> the model's error enum."""
+    try:
+        from dulwich.errors import ObjectFormatException
+    except Exception:  # pragma: no cover
+        ObjectFormatException = ()
+    if isinstance(e, (ObjectFormatException, ValueError)):
+        return "format"
+    return "other"
+
+
+def ob(x) -> str:
+    """Option[bytes] token."""
+    return "~" if x is None else hx(bytes(x))
+
+
+def oi(x) -> str:
+    return "~" if x is None else str(int(x))
+
+
+def obool(x) -> str:
+    return "~" if x is None else ("1" if x else "0")
+
+
+def lst(items) -> str:
+    items = list(items)
+    return "." if not items else ",".join(items)
+
+
+def ent(name: bytes, mode: int, sha: bytes) -> str:
+    return f"{hx(name)}:{int(mode)}:{hx(sha)}"
+
+
+TYPE_NUM = {"commit": 1, "tree": 2, "blob": 3, "tag": 4}
+
+
+def sha_hex(algo: str, type_name: str, body: bytes) -> bytes:
+    h = hashlib.sha1() if algo == "sha1" else hashlib.sha256()
+    h.update(type_name.encode() + b" " + str(len(body)).encode() + b"\0" + body)
+    return h.hexdigest().encode()
+
+
+# ================================================================================================
+# field records (plain dicts) and the glue to the real classes / the model line protocol
+
+COMMIT_KEYS = ["tree", "parents", "author", "author_time", "author_timezone", "author_neg",
+               "committer", "commit_time", "commit_timezone", "commit_neg", "encoding", "mergetag",
+               "extra", "gpgsig", "message"]
+TAG_KEYS = ["object_sha", "object_type", "name", "tagger", "tag_time", "tag_timezone", "tag_neg",
+            "message", "signature"]
+
+
+def commit_tokens(f: dict) -> str:
+    return " ".join([
+        ob(f["tree"]), lst(hx(p) for p in f["parents"]),
+        ob(f["author"]), oi(f["author_time"]), oi(f["author_timezone"]), obool(f["author_neg"]),
+        ob(f["committer"]), oi(f["commit_time"]), oi(f["commit_timezone"]), obool(f["commit_neg"]),
+        ob(f["encoding"]), lst(hx(m) for m in f["mergetag"]),
+        lst(hx(k) + "=" + hx(v) for k, v in f["extra"]), ob(f["gpgsig"]), ob(f["message"])])
+
+
+def tag_tokens(f: dict) -> str:
+    return " ".join([ob(f["object_sha"]), ob(f["object_type"]), ob(f["name"]), ob(f["tagger"]),
+                     oi(f["tag_time"]), oi(f["tag_timezone"]), obool(f["tag_neg"]), ob(f["message"]),
+                     ob(f["signature"])])
+
+
+def build_tag(f: dict):
+    """A live Tag with the given attribute values (public setters; the private neg-utc flag directly)."""
+    from dulwich.objects import Tag, object_class
+    t = Tag()
+    cls = object_class(f["object_type"]) if f["object_type"] is not None else None
+    t.object = (cls, f["object_sha"])
+    t.name = f["name"]
+    t.tagger = f["tagger"]
+    t.tag_time = f["tag_time"]
+    t.tag_timezone = f["tag_timezone"]
+    t._tag_timezone_neg_utc = f["tag_neg"]
+    t.message = f["message"]
+    t.signature = f["signature"]
+    return t
+
+
+def build_commit(f: dict):
+    from dulwich.objects import Commit, Tag
+    c = Commit()
+    c.tree = f["tree"]
+    c.parents = list(f["parents"])
+    c.author = f["author"]
+    c.author_time = f["author_time"]
+    c.author_timezone = f["author_timezone"]
+    c._author_timezone_neg_utc = f["author_neg"]
+    c.committer = f["committer"]
+    c.commit_time = f["commit_time"]
+    c.commit_timezone = f["commit_timezone"]
+    c._commit_timezone_neg_utc = f["commit_neg"]
+    c.encoding = f["encoding"]
+    c.mergetag = [Tag.from_string(m) for m in f["mergetag"]]
+    c._extra = list(f["extra"])
+    c.gpgsig = f["gpgsig"]
+    c.message = f["message"]
+    return c
+
+
+def tag_fields_of(t) -> dict:
+    g = lambda n: getattr(t, n, None)
+    cls = g("_object_class")
+    return {"object_sha": g("_object_sha"), "object_type": None if cls is None else cls.type_name,
+            "name": g("_name"), "tagger": g("_tagger"), "tag_time": g("_tag_time"),
+            "tag_timezone": g("_tag_timezone"), "tag_neg": g("_tag_timezone_neg_utc"),
+            "message": g("_message"), "signature": g("_signature")}
+
+
+def commit_fields_of(c) -> dict:
+    g = lambda n: getattr(c, n, None)
+    return {"tree": g("_tree"), "parents": list(g("_parents") or []),
+            "author": g("_author"), "author_time": g("_author_time"), "author_timezone": g("_author_timezone"),
+            "author_neg": g("_author_timezone_neg_utc"),
+            "committer": g("_committer"), "commit_time": g("_commit_time"), "commit_timezone": g("_commit_timezone"),
+            "commit_neg": g("_commit_timezone_neg_utc"),
+            "encoding": g("_encoding"), "mergetag": [m.as_raw_string() for m in (g("_mergetag") or [])],
+            "extra": [(k, v) for k, v in (g("_extra") or [])], "gpgsig": g("_gpgsig"), "message": g("_message")}
+
+
+def try_raw(obj) -> str:
+    try:
+        return "ok " + hx(obj.as_raw_string())
+    except Exception as e:  # noqa: BLE001
+        return "err " + _errname(e)
+
+
+# ================================================================================================
+# reference serialisers: git's object grammar written down independently of dulwich
+
+def ref_tz(off: int, negzero: bool = False) -> bytes:
+    """[+-]HHMM as git prints it; `-0000` when negzero."""
+    assert off % 60 == 0
+    sign = "-" if (off < 0 or (off == 0 and negzero)) else "+"
+    a = abs(off) // 60
+    return f"{sign}{a // 60:02d}{a % 60:02d}".encode()
+
+
+def ref_fold(value: bytes) -> bytes:
+    return value.replace(b"\n", b"\n ")
+
+
+def ref_commit(f: dict) -> bytes:
+    out = [b"tree " + f["tree"] + b"\n"]
+    for p in f["parents"]:
+        out.append(b"parent " + p + b"\n")
+    out.append(b"author " + f["author"] + b" " + str(f["author_time"]).encode() + b" " +
+               ref_tz(f["author_timezone"], bool(f["author_neg"])) + b"\n")
+    out.append(b"committer " + f["committer"] + b" " + str(f["commit_time"]).encode() + b" " +
+               ref_tz(f["commit_timezone"], bool(f["commit_neg"])) + b"\n")
+    if f["encoding"]:
+        out.append(b"encoding " + f["encoding"] + b"\n")
+    for m in f["mergetag"]:
+        assert m.endswith(b"\n")
+        out.append(b"mergetag " + ref_fold(m[:-1]) + b"\n")
+    for k, v in f["extra"]:
+        out.append(k + b" " + ref_fold(v) + b"\n")
+    if f["gpgsig"]:
+        out.append(b"gpgsig " + ref_fold(f["gpgsig"]) + b"\n")
+    out.append(b"\n")
+    out.append(f["message"] or b"")
+    return b"".join(out)
+
+
+def ref_tag(f: dict) -> bytes:
+    out = [b"object " + f["object_sha"] + b"\n", b"type " + f["object_type"] + b"\n", b"tag " + f["name"] + b"\n"]
+    if f["tagger"]:
+        out.append(b"tagger " + f["tagger"] + b" " + str(f["tag_time"]).encode() + b" " +
+                   ref_tz(f["tag_timezone"], bool(f["tag_neg"])) + b"\n")
+    out.append(b"\n")
+    out.append((f["message"] or b"") + (f["signature"] or b""))
+    return b"".join(out)
+
+
+def git_name_cmp(a, b) -> int:
+    """git's base_name_compare on (name, mode) pairs."""
+    (n1, m1), (n2, m2) = a, b
+    ln = min(len(n1), len(n2))
+    if n1[:ln] != n2[:ln]:
+        return -1 if n1[:ln] < n2[:ln] else 1
+    c1 = n1[ln] if len(n1) > ln else (0x2F if (m1 & 0o170000) == 0o040000 else 0)
+    c2 = n2[ln] if len(n2) > ln else (0x2F if (m2 & 0o170000) == 0o040000 else 0)
+    return (c1 > c2) - (c1 < c2)
+
+
+def ref_tree(entries) -> bytes:
+    """entries: iterable of (name, mode, hexsha), unique names; git order, git mode spelling."""
+    import functools
+    es = sorted(entries, key=functools.cmp_to_key(lambda x, y: git_name_cmp((x[0], x[1]), (y[0], y[1]))))
+    return b"".join(b"%o" % m + b" " + n + b"\0" + bytes.fromhex(h.decode()) for n, m, h in es)
+
+
+# ================================================================================================
+# generators
+
+ODD_BYTES = [b"\xff", b"\xc3\xa9", b"\xe2\x80\xa8", b"\x80", b"\t", b"  ", b"'", b"\"", b"\\", b"\x7f", b"\x01", b"=",
+             b":", b",", b".", b"-", b"+", b"~", b"\xc0\xaf", b"\r"]
+MODES = [0o100644, 0o100755, 0o120000, 0o040000, 0o160000, 0o100664]
+TZ_CANON = [0, 3600, -3600, 19800, 20700, -16200, 50400, -43200, 45900, 1800, -1800, 34200, 86340, -86340, 60, -60]
+TIMES = [0, 1, 59, 1234567890, 2 ** 31 - 1, 2 ** 31, 2 ** 32 - 1, 2 ** 32, 2 ** 40, 2 ** 53, 2 ** 63 - 1, 10 ** 18]
+NEG_TIMES = [-1, -2 ** 31, -2 ** 31 - 1, -10 ** 12, -2 ** 63]
+HUGE_TIMES = [2 ** 63, 2 ** 64, 10 ** 30]
+
+
+def gen_hex(rng, algo="sha1") -> bytes:
+    n = 20 if algo == "sha1" else 32
+    k = rng.random()
+    if k < 0.1:
+        return (b"00" * n)
+    if k < 0.2:
+        return (b"ff" * n)
+    return rng.randbytes(n).hex().encode()
+
+
+def gen_word(rng, lo=1, hi=8, alpha=b"abcXYZ019_") -> bytes:
+    return bytes(rng.choice(alpha) for _ in range(rng.randint(lo, hi)))
+
+
+def gen_ident(rng, git_clean=False) -> bytes:
+    """`name <email>`; odd bytes but never LF/NUL/<> inside (git's ident grammar)."""
+    def part(lo):
+        out = b""
+        for _ in range(rng.randint(lo, 3)):
+            out += gen_word(rng) if rng.random() < 0.7 else rng.choice(ODD_BYTES)
+            if rng.random() < 0.3:
+                out += b" "
+        return out
+    name = part(1).strip(b" \t\r") or b"x"
+    if git_clean:
+        name = name.replace(b"\r", b"r").replace(b"\t", b"t")
+    email = part(0).replace(b" ", b"").replace(b"\t", b"").replace(b"\r", b"") if not git_clean or True else b""
+    k = rng.random()
+    if k < 0.05 and not git_clean:
+        return b"<" + email + b">"           # empty name (old git allowed it)
+    if k < 0.10:
+        return name + b" <>"
+    return name + b" <" + email + b">"
+
+
+def gen_time(rng, level="canon") -> int:
+    k = rng.random()
+    if level == "git":
+        return rng.choice([0, 1, 1234567890, 2 ** 31 - 1, 2 ** 31, 2 ** 32, 2 ** 40, rng.randrange(2 ** 33)])
+    if k < 0.45:
+        return rng.choice(TIMES)
+    if k < 0.6:
+        return rng.choice(NEG_TIMES)
+    if k < 0.68:
+        return rng.choice(HUGE_TIMES)
+    return rng.randrange(-2 ** 34, 2 ** 34)
+
+
+def gen_tz(rng, level="canon"):
+    """(offset seconds, neg-utc flag).  canon/git: what git emits ([+-]HHMM, MM < 60, incl. -0000)."""
+    k = rng.random()
+    if k < 0.12:
+        return 0, True
+    if k < 0.5:
+        return rng.choice(TZ_CANON), False
+    hh = rng.choice([0, 1, 9, 10, 12, 14, 23, 24, 99]) if level != "git" else rng.choice([0, 1, 9, 10, 12, 14])
+    mm = rng.choice([0, 15, 30, 45, 59, 1, rng.randrange(60)])
+    off = (hh * 60 + mm) * 60
+    return (off if rng.random() < 0.5 else -off), False
+
+
+def gen_multiline(rng, git_clean=False) -> bytes:
+    """A header value with embedded newlines, blank lines, leading spaces."""
+    lines = []
+    for _ in range(rng.randint(1, 5)):
+        k = rng.random()
+        if k < 0.15:
+            lines.append(b"")
+        elif k < 0.3:
+            lines.append(b" " + gen_word(rng))
+        elif k < 0.4 and not git_clean:
+            lines.append(rng.choice(ODD_BYTES) + gen_word(rng))
+        else:
+            lines.append(gen_word(rng, 1, 20, b"abcdefghijklmnopqrstuvwxyz0123456789+/= "))
+    if git_clean and lines and lines[0].strip() == b"":
+        lines[0] = b"v"
+    return b"\n".join(lines)
+
+
+def gen_pgp(rng, kind=None) -> bytes:
+    kind = kind or rng.choice(["PGP", "SSH"])
+    body = [gen_word(rng, 10, 64, b"ABCDEFGHIJKLMNOPQRSTUVWXYZabcdefghijklmnopqrstuvwxyz0123456789+/") for _ in range(rng.randint(1, 4))]
+    lines = [b"-----BEGIN " + kind.encode() + b" SIGNATURE-----"]
+    if kind == "PGP" and rng.random() < 0.7:
+        lines += [b"Version: GnuPG v1", b""]
+    elif kind == "PGP":
+        lines += [b""]
+    lines += body + [b"=" + gen_word(rng, 4, 4, b"ABCDabcd0123")] if kind == "PGP" else body
+    lines.append(b"-----END " + kind.encode() + b" SIGNATURE-----")
+    return b"\n".join(lines)
+
+
+def gen_message(rng, git_clean=False):
+    k = rng.random()
+    if k < 0.1:
+        return b""
+    if k < 0.2:
+        return b"subject"                      # no trailing LF
+    if k < 0.3:
+        return b"\n\nleading blank lines\n"
+    if k < 0.4 and not git_clean:
+        return rng.randbytes(rng.randint(1, 40)).replace(b"\0", b"0")
+    if k < 0.5:
+        return b"subject\n\nbody with tree deadbeef\nauthor x\n \n continuation-looking\n"
+    return gen_multiline(rng, git_clean) + b"\n"
+
+
+def gen_tag_fields(rng, level="canon", algo="sha1", target=None) -> dict:
+    git = level == "git"
+    tz, neg = gen_tz(rng, level)
+    f = {"object_sha": gen_hex(rng, algo), "object_type": rng.choice([b"commit", b"tree", b"blob", b"tag"]),
+         "name": gen_word(rng, 1, 12, b"abcv0123456789.-_/") if git or rng.random() < 0.7 else gen_word(rng) + rng.choice(ODD_BYTES),
+         "tagger": gen_ident(rng, git), "tag_time": gen_time(rng, level), "tag_timezone": tz, "tag_neg": neg,
+         "message": gen_message(rng, git), "signature": None}
+    if target is not None:
+        f["object_sha"], f["object_type"] = target
+    k = rng.random()
+    if k < 0.15 and not git:
+        f["tagger"], f["tag_time"], f["tag_timezone"], f["tag_neg"] = None, None, None, False
+    if rng.random() < 0.3:
+        # signature appended to the message: message must end with LF for git's own tags; any split is
+        # recoverable as long as the marker does not occur earlier
+        if f["message"] and not f["message"].endswith(b"\n"):
+            f["message"] += b"\n"
+        f["signature"] = gen_pgp(rng) + b"\n"
+    return f
+
+
+def gen_commit_fields(rng, level="canon", algo="sha1") -> dict:
+    git = level == "git"
+    atz, aneg = gen_tz(rng, level)
+    ctz, cneg = gen_tz(rng, level)
+    f = {"tree": gen_hex(rng, algo),
+         "parents": [gen_hex(rng, algo) for _ in range(rng.choice([0, 0, 1, 1, 1, 2, 2, 3, 8]))],
+         "author": gen_ident(rng, git), "author_time": gen_time(rng, level), "author_timezone": atz, "author_neg": aneg,
+         "committer": gen_ident(rng, git), "commit_time": gen_time(rng, level), "commit_timezone": ctz, "commit_neg": cneg,
+         "encoding": None, "mergetag": [], "extra": [], "gpgsig": None, "message": gen_message(rng, git)}
+    if rng.random() < 0.25:
+        f["encoding"] = rng.choice([b"ISO-8859-1", b"latin1", b"UTF-8", b"x-odd enc"])
+    if rng.random() < 0.2:
+        for _ in range(rng.randint(1, 2)):
+            tf = gen_tag_fields(rng, "git" if git else "canon", algo)
+            tf["object_type"] = b"commit"
+            if tf["tagger"] is None:
+                tf["tagger"], tf["tag_time"], tf["tag_timezone"], tf["tag_neg"] = b"T <t@t>", 1, 0, False
+            raw = ref_tag(tf)
+            if not raw.endswith(b"\n"):
+                raw += b"\n"
+            f["mergetag"].append(raw)
+    if rng.random() < 0.3:
+        for _ in range(rng.randint(1, 3)):
+            key = rng.choice([b"HG:extra", b"HG:rename-source", b"change-id", b"x-foo", b"gpgsig-sha256", b"kilroy",
+                              gen_word(rng, 1, 6, b"abcdefXYZ-:")])
+            val = rng.choice([gen_word(rng), gen_multiline(rng, git), b"", gen_multiline(rng, git) + b"\n" if not git else b"v"])
+            f["extra"].append((key, val))
+    if rng.random() < 0.25:
+        f["gpgsig"] = gen_pgp(rng)
+    return f
+
+
+def gen_name(rng) -> bytes:
+    k = rng.random()
+    if k < 0.5:
+        base = rng.choice([b"a", b"ab", b"a.b", b"a-", b"a0", b"a-b", b"a b", b"a\xff", b"a\x01", b"a/", b"A", b"b", b"a.", b"a+", b"a,"])
+        return base
+    if k < 0.7:
+        return gen_word(rng, 1, 3, b"ab./-0")
+    return gen_word(rng, 1, 10) + (rng.choice(ODD_BYTES) if rng.random() < 0.3 else b"")
+
+
+def gen_tree_entries(rng, algo="sha1", n=None, git_clean=False):
+    """dict-ordered list of unique-name (name, mode, hexsha); dir/file twins arise through prefix collisions."""
+    n = rng.choice([0, 1, 2, 3, 5, 8, 12]) if n is None else n
+    seen, out = set(), []
+    for _ in range(n * 3):
+        if len(out) >= n:
+            break
+        name = gen_name(rng)
+        if git_clean:
+            name = name.replace(b"/", b"_")
+            if name in (b".", b"..", b".git", b""):
+                continue
+        if name in seen or b"\0" in name or name == b"":
+            continue
+        # slashes only as the single documented collision probe `a/`
+        if b"/" in name and name != b"a/":
+            continue
+        seen.add(name)
+        out.append((name, rng.choice(MODES), gen_hex(rng, algo)))
+    return out
+
+
+def mutate(rng, raw: bytes) -> bytes:
+    """One or two structured/byte-level mutations of a serialised object."""
+    b = bytearray(raw)
+    for _ in range(rng.choice([1, 1, 2])):
+        k = rng.random()
+        if not b:
+            b += rng.randbytes(rng.randint(1, 3))
+        elif k < 0.25:
+            b[rng.randrange(len(b))] = rng.choice([0, 10, 32, 43, 45, 48, 55, 56, 60, 62, 95, 111, 255, rng.randrange(256)])
+        elif k < 0.45:
+            del b[rng.randrange(len(b))]
+        elif k < 0.6:
+            p = rng.randrange(len(b) + 1)
+            b[p:p] = rng.choice([b"\n", b" ", b"\n ", b"> ", b"-", b"+", b"_", b"0o", b"\0", b"\n\n", rng.randbytes(1)])
+        elif k < 0.75:
+            del b[rng.randrange(len(b)):]            # truncate
+        elif k < 0.85:
+            lines = bytes(b).split(b"\n")
+            if len(lines) > 2:
+                i = rng.randrange(len(lines) - 1)
+                lines[i], lines[i + 1] = lines[i + 1], lines[i]
+                b = bytearray(b"\n".join(lines))
+        else:
+            lines = bytes(b).split(b"\n")
+            i = rng.randrange(len(lines))
+            lines.insert(i, lines[i])
+            b = bytearray(b"\n".join(lines))
+    return bytes(b)
+
+
+# ================================================================================================
+# worker-side adapters (tree functions: pure-Python variant vs rebuilt Rust variant)
+
+def _w_entries(tokens):
+    return [(unhx(n), int(m), unhx(h)) for n, m, h in tokens]
+
+
+def _w_one(op, a):
+    import dulwich.objects as O
+    from dulwich.object_format import SHA1, SHA256
+    try:
+        if op == "sort":
+            d = {}
+            for n, m, h in _w_entries(a["entries"]):
+                d[n] = (m, h)
+            return "ok " + lst(ent(e.path, e.mode, e.sha) for e in O.sorted_tree_items(d, bool(a.get("name_order"))))
+        if op == "ser":
+            t = O.Tree()
+            for n, m, h in _w_entries(a["entries"]):
+                t.add(n, m, h)
+            return "ok " + hx(t.as_raw_string())
+        if op == "parse":
+            return "ok " + lst(ent(n, m, h) for n, m, h in O.parse_tree(unhx(a["raw"]), a["sha_len"]))
+        if op == "deser":
+            fmt = SHA1 if a["sha_len"] == 20 else SHA256
+            t = O.ShaFile.from_raw_string(2, unhx(a["raw"]), object_format=fmt)
+            return "ok " + lst(ent(n, m, h) for n, (m, h) in t._entries.items())
+        if op == "roundtrip":
+            # oracle: build from entries, serialise, parse again, touch, serialise again
+            fmt = SHA1 if a["sha_len"] == 20 else SHA256
+            t = O.Tree()
+            t.object_format = fmt
+            for n, m, h in _w_entries(a["entries"]):
+                t.add(n, m, h)
+            raw = t.as_raw_string()
+            t2 = O.ShaFile.from_raw_string(2, raw, object_format=fmt)
+            items2 = lst(ent(e.path, e.mode, e.sha) for e in t2.items())
+            # touch: re-add the first entry with its own value (marks dirty, forces a re-serialisation)
+            if a["entries"]:
+                n, m, h = _w_entries(a["entries"])[0]
+                t2[n] = (m, h)
+            raw2 = t2.as_raw_string()
+            return {"raw": hx(raw), "id": t.id.decode(), "id256": t.get_id(SHA256).decode(), "items2": items2,
+                    "raw2": hx(raw2), "id2": t2.id.decode()}
+        raise AssertionError(op)
+    except Exception as e:  # noqa: BLE001
+        return "err " + _errname(e)
+
+
+def impl_batch(a):
+    return [_w_one(op, x) for op, x in a]
+
+
+def impl_which(a):
+    import dulwich.objects as O
+    return {"parse_tree": getattr(O.parse_tree, "__module__", None) or type(O.parse_tree).__name__,
+            "sorted_tree_items": getattr(O.sorted_tree_items, "__module__", None) or type(O.sorted_tree_items).__name__,
+            "file": O.__file__}
+
+
+class Variants:
+    def __init__(self, ctx):
+        self.workers = {"py": core.Worker("py", mem_mb=2048)}
+        ov = core.rust_overlay()
+        if ov is not None:
+            self.workers["rs"] = core.Worker("rs", overlay=ov, mem_mb=2048)
+        else:
+            ctx.notes.append("cargo build failed: Rust variant not exercised (see .cache/cargo.log)")
+            ctx.disagree("rust.build", {}, "builds", "cargo build failed", "rs")
+
+    def batch(self, variant, reqs, chunk=400):
+        out = []
+        for i in range(0, len(reqs), chunk):
+            rep = self.workers[variant].ask({"mod": MOD, "op": "batch", "args": reqs[i:i + chunk]}, timeout=600)
+            if "r" not in rep:
+                raise core.InfraError(f"worker {variant} failed on a batch: {rep}")
+            out += rep["r"]
+        return out
+
+    def close(self):
+        for w in self.workers.values():
+            w.close()
+
+
+# ================================================================================================
+# streams
+
+def _cmp(ctx, stream, case, model, impl, variant="impl"):
+    if model != impl:
+        ctx.disagree(stream, case, model[:400] if isinstance(model, str) else model,
+                     impl[:400] if isinstance(impl, str) else impl, variant)
+        return False
+    return True
+
+
+def _stream_prims(ctx, V):
+    """int()/str() of bytes, Rust octal parse, object_header, timezone and time-entry primitives."""
+    import itertools
+    import dulwich.objects as O
+    rng = ctx.rng
+    # --- int(bytes[, 8]) exhaustively over a small alphabet + random
+    alpha = [b" ", b"\t", b"+", b"-", b"_", b"0", b"7", b"8", b"o", b"\n"]
+    L = 4 if not ctx.thorough else 5
+    cases = [b"".join(t) for n in range(0, L + 1) for t in itertools.product(alpha, repeat=n)]
+    cases += [bytes([c]) + b"1" for c in range(256)] + [b"1" + bytes([c]) for c in range(256)]
+    cases += [b"0o17", b"0O17", b"0o_17", b"0O_1_7", b"1_000", b"-0", b"+00012", b"\x0b12\x0c", b"12\r\n", b"0x1f", b"1e3", b"1.0",
+              b"99999999999999999999999", b"-99999999999999999999999", b"0b1", b"00", b"07", b"08"]
+    for _ in range(ctx.budget(300)):
+        cases.append(bytes(rng.choice(b"0123456789 +-_o\t") for _ in range(rng.randint(1, 8))))
+    lines = [f"c01.pyint 8 {hx(c)}" for c in cases] + [f"c01.pyint 10 {hx(c)}" for c in cases]
+    outs = ctx.driver.batch(lines)
+    for i, c in enumerate(cases):
+        for base, o in ((8, outs[i]), (10, outs[len(cases) + i])):
+            try:
+                real = str(int(c, base))
+            except ValueError:
+                real = "none"
+            ctx.count("prim.pyint", (base, c), True, f"base{base}:" + ("ok" if real != "none" else "err"))
+            _cmp(ctx, "prim.pyint", {"base": base, "text": hx(c)}, o, real)
+    # --- str(int)
+    ints = TIMES + NEG_TIMES + HUGE_TIMES + [9, 10, 11, 99, 100, 101, -9, -10, -100] + \
+        [rng.randrange(-10 ** 20, 10 ** 20) for _ in range(ctx.budget(100))]
+    outs = ctx.driver.batch([f"c01.dec {i}" for i in ints])
+    for i, o in zip(ints, outs):
+        ctx.count("prim.dec", i, True)
+        _cmp(ctx, "prim.dec", {"int": i}, o, hx(str(i).encode()))
+    # --- Rust / Python mode token through parse_tree on a one-entry tree
+    toks = [b"".join(t) for n in range(0, 4) for t in itertools.product([b"+", b"-", b"0", b"7", b"8", b"_", b"o"], repeat=n)]
+    toks += [b"37777777777", b"40000000000", b"100644", b"040000", b"40000", b"\xff7", b"7\xc3\xa9", b"0o7", b"+100644",
+             b"00000000000000000000007", b"77777777777777777777777"]
+    sha = bytes(range(1, 21))
+    lines, metas = [], []
+    for variant in V.workers:
+        reps = V.batch(variant, [("parse", {"raw": hx(t + b" n\0" + sha), "sha_len": 20}) for t in toks])
+        mo = ctx.driver.batch([f"c01.tree.parse {variant} 20 {hx(t + b' n' + bytes(1) + sha)}" for t in toks])
+        for t, r, m in zip(toks, reps, mo):
+            ctx.count("prim.modetoken", (variant, t), True, f"{variant}:{r[:3]}")
+            _cmp(ctx, "prim.modetoken", {"variant": variant, "token": hx(t)}, m, r, variant)
+    # --- object_header / hash input
+    for num, name in ((1, "commit"), (2, "tree"), (3, "blob"), (4, "tag")):
+        for ln in (0, 1, 9, 10, 99, 100, 12345, 2 ** 32):
+            real = hx(O.object_header(num, ln))
+            body = b"x" * min(ln, 200)
+            o = ctx.driver.batch([f"c01.hashinput {num} {hx(body)}"])[0]
+            ctx.count("prim.header", (num, ln), True)
+            _cmp(ctx, "prim.header", {"num": num, "len": len(body)}, o, hx(O.object_header(num, len(body)) + body))
+            # direct: header spelled as git does
+            if O.object_header(num, ln) != name.encode() + b" " + str(ln).encode() + b"\0":
+                ctx.oracle_fail("prim.header", {"num": num, "len": ln}, f"object_header gives {real}", None)
+
+
+def _stream_tz(ctx):
+    import dulwich.objects as O
+    rng = ctx.rng
+    # --- format_timezone: model vs real on canonical and non-canonical states
+    cases = [(o, n) for o in TZ_CANON + [360000, -360000, 359940, 2 ** 40 * 60, 61, -61, 59, 1, -1, 30]
+             for n in (False, True)]
+    for _ in range(ctx.budget(300)):
+        tz, neg = gen_tz(rng, "canon")
+        cases.append((tz, neg))
+        cases.append((rng.randrange(-10 ** 6, 10 ** 6) * rng.choice([1, 60, 60, 3600]), rng.random() < 0.3))
+    outs = ctx.driver.batch([f"c01.fmttz {o} {int(n)}" for o, n in cases])
+    texts = []
+    for (o, n), m in zip(cases, outs):
+        try:
+            real = "ok " + hx(O.format_timezone(o, n))
+        except ValueError:
+            real = "err format"
+        ctx.count("tz.format", (o, n), True, "neg" if n else "plain")
+        _cmp(ctx, "tz.format", {"offset": o, "neg": n}, m, real)
+        if real.startswith("ok"):
+            texts.append(unhx(real[3:]))
+        # direct oracle: what git emits for this zone ([+-]HHMM; the flag only means -0000)
+        if o % 60 == 0 and abs(o) < 100 * 3600 and (not n or o == 0):
+            want = ref_tz(o, n)
+            if real != "ok " + hx(want):
+                ctx.oracle_fail("tz.format", {"offset": o, "neg": n}, f"format_timezone gives {real}, git spells {want!r}", None)
+            try:
+                back = O.parse_timezone(want)
+            except Exception as e:  # noqa: BLE001
+                back = type(e).__name__
+            if back != (o, n):
+                ctx.oracle_fail("tz.parse", {"text": hx(want)}, f"parse_timezone({want!r}) = {back}, expected {(o, n)}", None)
+    # --- parse_timezone: model vs real on emitted texts, every canonical spelling, mutations
+    texts += [s + b"%02d%02d" % (h, m) for s in (b"+", b"-") for h in (0, 1, 5, 9, 10, 12, 14, 23, 99) for m in (0, 1, 15, 30, 45, 59)]
+    texts += [b"", b"+", b"-", b"0000", b"+0", b"-0", b"--700", b"--0", b"+-5", b"-+5", b"+ 100", b"+1_00", b"+0100 ", b"\t+0100",
+              b"+10000", b"-99999999", b"+0o10", b"++100", b"+0575", b"+0060", b"-0060", b"+\xd9\xa0\xd9\xa1", b"+12a"]
+    texts += [mutate(rng, rng.choice(texts[:40] or [b"+0100"])) for _ in range(ctx.budget(200))]
+    outs = ctx.driver.batch([f"c01.parsetz {hx(t)}" for t in texts])
+    for t, m in zip(texts, outs):
+        try:
+            r = O.parse_timezone(t)
+            real = f"ok {r[0]} {int(bool(r[1]))}"
+        except Exception as e:  # noqa: BLE001
+            real = "err " + _errname(e)
+        ctx.count("tz.parse", t, True, real[:3])
+        _cmp(ctx, "tz.parse", {"text": hx(t)}, m, real)
+    # --- time entries
+    ents = []
+    for _ in range(ctx.budget(300)):
+        tz, neg = gen_tz(rng, "canon")
+        ents.append((gen_ident(rng), gen_time(rng), tz, neg))
+    outs = ctx.driver.batch([f"c01.fmtte {hx(p)} {t} {z} {int(n)}" for p, t, z, n in ents])
+    raws = []
+    for (p, t, z, n), m in zip(ents, outs):
+        real = "ok " + hx(O.format_time_entry(p, t, (z, n)))
+        ctx.count("te.format", (p, t, z, n), True)
+        _cmp(ctx, "te.format", {"person": hx(p), "time": t, "tz": z, "neg": n}, m, real)
+        raw = unhx(real[3:])
+        raws.append(raw)
+        want = p + b" " + str(t).encode() + b" " + ref_tz(z, n)
+        if raw != want:
+            ctx.oracle_fail("te.format", {"person": hx(p), "time": t, "tz": z, "neg": n}, f"{raw!r} != {want!r}", None)
+        back = O.parse_time_entry(raw)
+        if back != (p, t, (z, n)):
+            ctx.oracle_fail("te.roundtrip", {"raw": hx(raw)}, f"parse_time_entry gives {back}", None)
+    raws += [b"A <a@b>", b"A <a@b> ", b"A <a@b> 1", b"A <a@b> 1 ", b"A <a@b>  1 +0000", b"A <a@b> 1  +0000", b"> 1 +0000",
+             b"A <a> b> 1 +0000", b"A <a@b> 1 2 +0000", b"A <a@b> +1 +0000", b"A <a@b> 1_0 +0000", b"no brackets 1 +0000",
+             b"A <a@b> x +0000", b"A <a@b> 1 0000"]
+    raws += [mutate(rng, rng.choice(raws[:50])) for _ in range(ctx.budget(300))]
+    outs = ctx.driver.batch([f"c01.parsete {hx(r)}" for r in raws])
+    for r, m in zip(raws, outs):
+        try:
+            p, t, (z, n) = O.parse_time_entry(r)
+            real = f"ok {ob(p)} {oi(t)} {oi(z)} {obool(n)}"
+        except Exception as e:  # noqa: BLE001
+            real = "err " + _errname(e)
+        ctx.count("te.parse", r, True, real[:3])
+        _cmp(ctx, "te.parse", {"raw": hx(r)}, m, real)
+
+
+def gen_headers(rng):
+    hs = []
+    for _ in range(rng.randint(0, 5)):
+        k = rng.choice([b"tree", b"parent", b"x", b"HG:extra", gen_word(rng, 1, 5), bytes([rng.choice(b"ab\xff\x01-:\t")])])
+        kind = rng.random()
+        if kind < 0.3:
+            v = gen_word(rng)
+        elif kind < 0.6:
+            v = gen_multiline(rng)
+        elif kind < 0.75:
+            v = rng.choice([b"", b"\n", b"\n\n", b" ", b" \n ", b"a\n", b"\na", b"a\n\n", b"\n \n"])
+        else:
+            v = bytes(rng.choice(b"ab \n\n\xff\x00") for _ in range(rng.randint(0, 12)))
+        hs.append((k, v))
+    return hs
+
+
+def _real_parse_message(raw: bytes):
+    import dulwich.objects as O
+    try:
+        hs, body = [], "absent"
+        for k, v in O._parse_message([raw]):
+            if k is None:
+                body = v
+            else:
+                hs.append((k, v))
+        assert body != "absent"
+        return "ok " + " ".join([ob(body)] + [x for k, v in hs for x in (hx(k), hx(v))]), hs, body
+    except Exception as e:  # noqa: BLE001
+        return "err " + _errname(e), None, None
+
+
+def _stream_msg(ctx):
+    import dulwich.objects as O
+    rng = ctx.rng
+    cases = [([], None), ([], b""), ([], b"body"), ([(b"k", b"")], None), ([(b"k", b"\n")], b"\n"),
+             ([(b"k", b"a\n b")], b" x"), ([(b"k", b"v"), (b"k", b"v2")], b"\n\n")]
+    for _ in range(ctx.budget(500)):
+        cases.append((gen_headers(rng), rng.choice([None, b"", gen_message(rng), b" leading space\n", b"\nfoo"])))
+    lines = ["c01.fmtmsg " + " ".join([ob(b)] + [x for k, v in hs for x in (hx(k), hx(v))]) for hs, b in cases]
+    outs = ctx.driver.batch(lines)
+    raws = []
+    for (hs, body), m in zip(cases, outs):
+        real = b"".join(O._format_message(hs, body))
+        ctx.count("msg.format", (tuple(hs), body), True, f"h{len(hs)}")
+        _cmp(ctx, "msg.format", {"headers": [(hx(k), hx(v)) for k, v in hs], "body": ob(body)}, m, hx(real))
+        raws.append(real)
+        # direct oracle: parse(format(hs, body)) == (hs, body or b"") for well-formed field names
+        wf = all(k and b" " not in k and b"\n" not in k for k, _ in hs)
+        if wf:
+            _, phs, pbody = _real_parse_message(real)
+            if phs != hs or pbody != (body or b""):
+                ctx.oracle_fail("msg.roundtrip", {"headers": [(hx(k), hx(v)) for k, v in hs], "body": ob(body)},
+                                f"_parse_message(_format_message(..)) = {phs}, {pbody!r}", None)
+    raws += [b"", b"\n", b"\n\n", b" \n", b" x", b"k", b"k\n", b"k v", b"k v\n", b"k v\n x", b"k v\n\n", b" c\nk v\n\nb", b"k v\n c\n",
+             b"k v\n c\n\n", b"k  v\n", b"k \n", b"k v\nnospace\n\nb", b"\nk v\n", b"k v\r\n\r\nb"]
+    raws += [mutate(rng, rng.choice(raws[:200])) for _ in range(ctx.budget(500))]
+    outs = ctx.driver.batch([f"c01.parsemsg {hx(r)}" for r in raws])
+    for r, m in zip(raws, outs):
+        real, _, _ = _real_parse_message(r)
+        ctx.count("msg.parse", r, True, real[:3])
+        _cmp(ctx, "msg.parse", {"raw": hx(r)}, m, real)
+
+
+def _entries_tokens(es):
+    return [(hx(n), m, hx(h)) for n, m, h in es]
+
+
+def _stream_tree(ctx, V):
+    rng = ctx.rng
+    n = ctx.budget(250)
+    cases = []
+    # the prefix-collision family of the property, exhaustively as dir/file twins
+    fam = [b"a", b"a.b", b"a/", b"a-", b"a0", b"a.", b"a-b", b"ab", b"a b", b"a\xff", b"a\x01", b"A"]
+    h1 = b"11" * 20
+    for nm in fam:
+        for m1 in (0o100644, 0o040000):
+            for nm2 in fam:
+                for m2 in (0o100644, 0o040000, 0o160000):
+                    if nm != nm2:
+                        cases.append(("sha1", [(nm, m1, h1), (nm2, m2, h1)]))
+    cases.append(("sha1", [(x, rng.choice([0o100644, 0o040000]), h1) for x in fam]))
+    cases.append(("sha1", [(x, rng.choice([0o100644, 0o040000]), h1) for x in reversed(fam)]))
+    for _ in range(n):
+        algo = "sha256" if rng.random() < 0.25 else "sha1"
+        cases.append((algo, gen_tree_entries(rng, algo)))
+    # odd-but-serialisable modes for the model tie (not part of git's grammar)
+    for m in (0, 1, 0o777, 0o7777, 0o4000, 0o140000, 2 ** 31, 2 ** 32 - 1):
+        cases.append(("sha1", [(b"m", m, h1), (b"m2", 0o100644, h1)]))
+    for variant in V.workers:
+        tag = "rs" if variant == "rs" else "py"
+        sort_m = ctx.driver.batch([f"c01.tree.sort {tag} {lst(ent(*e) for e in es)}" for _, es in cases])
+        ser_m = ctx.driver.batch([f"c01.tree.ser {tag} {lst(ent(*e) for e in es)}" for _, es in cases])
+        reqs = []
+        for algo, es in cases:
+            reqs.append(("sort", {"entries": _entries_tokens(es)}))
+            reqs.append(("roundtrip", {"entries": _entries_tokens(es), "sha_len": 20 if algo == "sha1" else 32}))
+        reps = V.batch(variant, reqs)
+        for i, (algo, es) in enumerate(cases):
+            rs, rr = reps[2 * i], reps[2 * i + 1]
+            case = {"variant": variant, "algo": algo, "entries": [(hx(a), b, hx(c)) for a, b, c in es]}
+            twin = len({e[0].rstrip(b"/") for e in es}) < len(es) or any(
+                a[0] != b[0] and (a[0].startswith(b[0]) or b[0].startswith(a[0])) for a in es for b in es)
+            ctx.count("tree.sort", (variant, algo, tuple(es)), True, f"{variant}:n{min(len(es), 9)}" + (":collide" if twin else ""))
+            _cmp(ctx, "tree.sort", case, sort_m[i], rs, variant)
+            if isinstance(rr, str):
+                _cmp(ctx, "tree.ser", case, ser_m[i], rr, variant)
+                continue
+            _cmp(ctx, "tree.ser", case, ser_m[i], "ok " + rr["raw"], variant)
+            raw = unhx(rr["raw"])
+            # ---- direct oracle (property words): git order and spelling, lossless parse, id = hash, stable re-serialisation
+            legal = all(m in MODES for _, m, _ in es) and all(b"/" not in nme for nme, _, _ in es)
+            if legal:
+                want = ref_tree(es)
+                if raw != want:
+                    ctx.oracle_fail("tree.bytes", case, f"Tree bytes differ from git's encoding/order: {rr['raw'][:120]} vs {hx(want)[:120]}", None)
+                want_items = "ok " + lst(ent(*e) for e in sorted(
+                    es, key=__import__("functools").cmp_to_key(lambda x, y: git_name_cmp((x[0], x[1]), (y[0], y[1])))))
+                if "ok " + rr["items2"] != want_items:
+                    ctx.oracle_fail("tree.roundtrip", case, "parse(serialise(entries)) does not return the entries in git order", None)
+                if rr["raw2"] != rr["raw"] or rr["id2"] != rr["id"]:
+                    ctx.oracle_fail("tree.reserialise", case, "re-serialising the parsed tree after touching one entry changes bytes", None)
+            if rr["id"] != sha_hex("sha1", "tree", raw).decode() or rr["id256"] != sha_hex("sha256", "tree", raw).decode():
+                ctx.oracle_fail("tree.id", case, "Tree id is not the hash of header+bytes", None)
+    if cases:
+        ctx.sample({"stream": "tree", "entries": [(a.decode("latin1"), oct(b)) for a, b, _ in cases[-1][1]][:6]})
+    # ---- parse: canonical bytes (reference-serialised) and mutations, both variants, model vs real
+    raws = []
+    for algo, es in cases[-n:]:
+        legal = all(m in MODES for _, m, _ in es) and all(b"/" not in nme for nme, _, _ in es)
+        if legal:
+            raws.append((20 if algo == "sha1" else 32, ref_tree(es)))
+    raws += [(20, b""), (20, b"100644 a\0" + b"\1" * 19), (20, b"100644 a\0" + b"\1" * 21), (20, b"100644a\0" + b"\1" * 20),
+             (20, b"100644 a" + b"\1" * 20), (20, b" a\0" + b"\1" * 20), (20, b"040000 a\0" + b"\1" * 20),
+             (20, b"100644 \0" + b"\1" * 20), (20, b"100644 a b\0" + b"\1" * 20), (32, b"100644 a\0" + b"\1" * 20),
+             (20, b"100644 a\0" + b"\1" * 20 + b"100644 a\0" + b"\2" * 20),          # duplicate name: dict keeps the last
+             (20, b"100644 b\0" + b"\1" * 20 + b"100644 a\0" + b"\2" * 20)]          # unsorted input
+    base = list(raws)
+    for _ in range(ctx.budget(400)):
+        sl, r = rng.choice(base)
+        raws.append((sl, mutate(rng, r)))
+    for variant in V.workers:
+        tag = "rs" if variant == "rs" else "py"
+        pm = ctx.driver.batch([f"c01.tree.parse {tag} {sl} {hx(r)}" for sl, r in raws])
+        dm = ctx.driver.batch([f"c01.tree.parse {tag}dict {sl} {hx(r)}" for sl, r in raws])
+        reqs = []
+        for sl, r in raws:
+            reqs.append(("parse", {"raw": hx(r), "sha_len": sl}))
+            reqs.append(("deser", {"raw": hx(r), "sha_len": sl}))
+        reps = V.batch(variant, reqs)
+        for i, (sl, r) in enumerate(raws):
+            case = {"variant": variant, "sha_len": sl, "raw": hx(r)}
+            ctx.count("tree.parse", (variant, sl, r), True, f"{variant}:{reps[2 * i][:3]}")
+            _cmp(ctx, "tree.parse", case, pm[i], reps[2 * i], variant)
+            _cmp(ctx, "tree.deser", case, dm[i], reps[2 * i + 1], variant)
+
+
+# ------------------------------------------------------------------------------------------------
+# tags and commits
+
+def _norm_msg(f: dict, keys=("message",)) -> dict:
+    g = dict(f)
+    for k in keys:
+        if g.get(k) is None:
+            g[k] = b""          # message None and b"" are identified (DESIGN C01 Limits)
+    return g
+
+
+def _real_deser(kind: str, raw: bytes):
+    from dulwich.objects import Commit, Tag
+    try:
+        o = (Commit if kind == "commit" else Tag).from_string(raw)
+        f = commit_fields_of(o) if kind == "commit" else tag_fields_of(o)
+        return "ok " + (commit_tokens(f) if kind == "commit" else tag_tokens(f)), o, f
+    except Exception as e:  # noqa: BLE001
+        return "err " + _errname(e), None, None
+
+
+TOUCH = {"commit": ["tree", "parents", "author", "committer", "message", "commit_time", "commit_timezone", "author_time",
+                    "author_timezone", "encoding", "mergetag", "gpgsig"],
+         "tag": ["name", "tagger", "tag_time", "tag_timezone", "message", "signature", "object"]}
+
+
+def _canon_classes(kind: str, f: dict, raw_in: bytes | None = None) -> str | None:
+    """Narrow failing-input classes for the known findings (None: unclassified)."""
+    return None
+
+
+def _stream_objects(ctx, kind: str):
+    """fields -> bytes (model vs as_raw_string, vs git's grammar), bytes -> fields (model vs from_string),
+    parse -> touch one field -> re-serialise, on canonical objects; model vs real on mutated bytes."""
+    rng = ctx.rng
+    gen = gen_commit_fields if kind == "commit" else gen_tag_fields
+    tokens = commit_tokens if kind == "commit" else tag_tokens
+    build = build_commit if kind == "commit" else build_tag
+    ref = ref_commit if kind == "commit" else ref_tag
+    fields_of = commit_fields_of if kind == "commit" else tag_fields_of
+    from dulwich.objects import Commit, Tag
+    from dulwich.object_format import SHA256
+    cls = Commit if kind == "commit" else Tag
+    n = ctx.budget(400)
+    cases = [gen(rng, "canon", "sha256" if rng.random() < 0.2 else "sha1") for _ in range(n)]
+    outs = ctx.driver.batch([f"c01.{kind}.ser {tokens(f)}" for f in cases])
+    raws = []
+    for f, m in zip(cases, outs):
+        case = {"kind": kind, "fields": {k: repr(v) for k, v in f.items()}}
+        obj = build(f)
+        real = try_raw(obj)
+        shape = []
+        if kind == "commit":
+            shape = [f"p{min(len(f['parents']), 3)}"] + [k for k in ("encoding", "gpgsig") if f[k]] + \
+                    (["mergetag"] if f["mergetag"] else []) + (["extra"] if f["extra"] else [])
+        else:
+            shape = [f["object_type"].decode()] + (["sig"] if f["signature"] else []) + ([] if f["tagger"] else ["notagger"])
+        ctx.count(f"{kind}.ser", tokens(f), True, "+".join(shape))
+        _cmp(ctx, f"{kind}.ser", case, m, real)
+        if not real.startswith("ok "):
+            ctx.oracle_fail(f"{kind}.ser", case, f"canonical field values do not serialise: {real}", None)
+            continue
+        raw = unhx(real[3:])
+        raws.append(raw)
+        # ---- oracle 1: bytes are git's grammar for these values
+        want = ref(f)
+        if raw != want:
+            ctx.oracle_fail(f"{kind}.bytes", case, f"as_raw_string differs from git's encoding: {raw!r} vs {want!r}", None)
+        # ---- oracle 2: id = hash(type, length, content), both algorithms
+        if obj.id != sha_hex("sha1", kind, raw) or obj.get_id(SHA256) != sha_hex("sha256", kind, raw):
+            ctx.oracle_fail(f"{kind}.id", case, "id is not the hash of header+as_raw_string", None)
+        # ---- oracle 3: parsing the bytes returns the same values
+        back = fields_of(cls.from_string(raw))
+        if _norm_msg(back) != _norm_msg(f):
+            diff = [k for k in f if _norm_msg(back)[k] != _norm_msg(f)[k]]
+            ctx.oracle_fail(f"{kind}.roundtrip", case, f"from_string(as_raw_string) changes {diff}", None)
+    if raws:
+        ctx.sample({"stream": f"{kind}.ser", "raw": raws[0][:160].decode("latin1")})
+    # ---- canonical bytes written by the reference serialiser: parse, compare with model; touch one field
+    canon = []
+    for _ in range(ctx.budget(300)):
+        f = gen(rng, "canon", "sha256" if rng.random() < 0.2 else "sha1")
+        canon.append((f, ref(f)))
+    outs = ctx.driver.batch([f"c01.{kind}.deser {hx(r)}" for _, r in canon])
+    for (f, raw), m in zip(canon, outs):
+        case = {"kind": kind, "raw": hx(raw)}
+        real, obj, back = _real_deser(kind, raw)
+        ctx.count(f"{kind}.deser", raw, True, "canon")
+        _cmp(ctx, f"{kind}.deser", case, m, real)
+        if obj is None:
+            ctx.oracle_fail(f"{kind}.parse", case, f"a canonical {kind} is rejected: {real}", None)
+            continue
+        if _norm_msg(back) != _norm_msg(f):
+            diff = [k for k in f if _norm_msg(back)[k] != _norm_msg(f)[k]]
+            ctx.oracle_fail(f"{kind}.parse", case, f"from_string of canonical bytes gives other values for {diff}", None)
+            continue
+        _touch_oracle(ctx, kind, raw, rng)
+    # ---- mutated bytes: model vs real only (no property claim on malformed input here)
+    base = [r for _, r in canon] + raws
+    muts = [mutate(rng, rng.choice(base)) for _ in range(ctx.budget(500))] if base else []
+    muts += _handwritten(kind)
+    outs = ctx.driver.batch([f"c01.{kind}.deser {hx(r)}" for r in muts])
+    outs2 = ctx.driver.batch([f"c01.{kind}.reser {hx(r)}" for r in muts])
+    for r, m, m2 in zip(muts, outs, outs2):
+        real, obj, back = _real_deser(kind, r)
+        ctx.count(f"{kind}.deser", r, True, "mut:" + real[:3])
+        _cmp(ctx, f"{kind}.deser", {"kind": kind, "raw": hx(r)}, m, real)
+        if obj is not None:
+            # force a re-serialisation from the parsed attribute values (what any setter triggers)
+            obj._needs_serialization = True
+            rr = try_raw(obj)
+            _cmp(ctx, f"{kind}.reser", {"kind": kind, "raw": hx(r)}, m2, rr)
+
+
+def _handwritten(kind):
+    if kind == "commit":
+        t = b"tree " + b"a" * 40 + b"\n"
+        a = b"author A <a@b> 1 +0000\n"
+        c = b"committer C <c@d> 2 -0000\n"
+        return [b"", b"\n", t, t + a + c, t + a + c + b"\n", t + a + c + b"\nmsg", t + c + a + b"\nm", a + c + t + b"\nm",
+                t + a + c + b"encoding x\n\nm", t + a + c + b"x-a 1\nencoding x\n\nm", t + a + c + b"gpgsig s\nx-a 1\n\nm",
+                t + a + c + b"mergetag object " + b"b" * 40 + b"\n type commit\n tag v\n tagger T <t@t> 1 +0000\n \n m\n\nmsg\n",
+                t + a + c + b"mergetag bogus\n\nm", t + a + c + b"mergetag object x\n type nonsense\n\nm",
+                t + b"author A <a@b> 1 --700\n" + c + b"\nm", t + b"author A <a@b> 1 +0000 \n" + c + b"\nm",
+                t + b"author A <a@b>\n" + c + b"\nm", t + a + a + c + b"\nm", t + t + a + c + b"\nm",
+                t + a + c + b" continuation first\n\nm", b" leading continuation\n" + t + a + c + b"\nm",
+                t + b"parent " + b"c" * 40 + b"\n" + a + b"parent " + b"d" * 40 + b"\n" + c + b"\nm"]
+    o = b"object " + b"a" * 40 + b"\n"
+    return [b"", b"\n", o, o + b"type commit\ntag v\n", o + b"type commit\ntag v\n\n", o + b"type commit\ntag v\n\nmsg",
+            o + b"type commit\ntag v\ntagger T <t@t> 1 +0000\n", o + b"type bogus\ntag v\n\nm", o + b"type commit\ntag v\nextra x\n\nm",
+            b"type commit\n" + o + b"tag v\n\nm", o + b"type commit\ntag v\ntagger T <t@t>\n\nm",
+            o + b"type commit\ntag v\ntagger T <t@t> 1 -0000\n\nm\n-----BEGIN PGP SIGNATURE-----\nx\n-----END PGP SIGNATURE-----\n",
+            o + b"type commit\ntag v\n\n-----BEGIN SSH SIGNATURE-----\nx\n-----BEGIN PGP SIGNATURE-----\ny\n",
+            o + b"type commit\ntag v\n\nm-----BEGIN PGP SIGNATURE-----", o + b"type commit\ntag\n\nm", o + b"type commit\ntag \n\nm"]
+
+
+def _touch_oracle(ctx, kind, raw: bytes, rng):
+    """"re-serialising a parsed well-formed object, unchanged or with one field changed, reproduces every
+    other byte exactly": parse canonical bytes; (a) unchanged; (b) assign one attribute its own value
+    (forces a re-serialisation, must reproduce every byte); (c) change one attribute: the result must be
+    git's encoding of the changed values."""
+    from dulwich.objects import Commit, Tag
+    cls = Commit if kind == "commit" else Tag
+    ref = ref_commit if kind == "commit" else ref_tag
+    fields_of = commit_fields_of if kind == "commit" else tag_fields_of
+    case = {"kind": kind, "raw": hx(raw)}
+    o = cls.from_string(raw)
+    if o.as_raw_string() != raw or o.id != sha_hex("sha1", kind, raw):
+        ctx.oracle_fail(f"{kind}.unchanged", case, "parsed object does not give back its bytes / id", None)
+    attr = rng.choice(TOUCH[kind])
+    o = cls.from_string(raw)
+    setattr(o, attr, getattr(o, attr))
+    got = try_raw(o)
+    ctx.count(f"{kind}.touch", (raw, attr), True, attr)
+    if got != "ok " + hx(raw):
+        ctx.oracle_fail(f"{kind}.touch", {**case, "attr": attr},
+                        f"assigning {attr} its own value and re-serialising changes bytes: {got[:200]}", None)
+    # (c) a real change
+    o = cls.from_string(raw)
+    f = fields_of(o)
+    attr = rng.choice(["message", "author" if kind == "commit" else "name", "commit_time" if kind == "commit" else "tag_time"])
+    newv = {"message": b"changed\n", "author": b"New <n@n>", "name": b"newname", "commit_time": 42, "tag_time": 42}[attr]
+    if attr == "tag_time" and f["tagger"] is None:
+        return
+    setattr(o, attr, newv)
+    f2 = dict(f)
+    f2[attr] = newv
+    if kind == "tag" and f2["signature"]:
+        pass
+    want = ref(f2)
+    got = try_raw(o)
+    if got != "ok " + hx(want):
+        ctx.oracle_fail(f"{kind}.edit", {**case, "attr": attr}, f"after changing {attr}: {got[:200]} expected {hx(want)[:200]}", None)
+    elif o.id != sha_hex("sha1", kind, want):
+        ctx.oracle_fail(f"{kind}.edit", {**case, "attr": attr}, "id after edit is not the hash of the new bytes", None)
